@@ -16,6 +16,7 @@ import (
 	"sort"
 	"strings"
 	"time"
+	"unicode/utf8"
 
 	"verif/internal/mon"
 )
@@ -177,7 +178,8 @@ func sourceOf(c *caseData) string {
 // which case the generator spec regenerates it).
 func replayOf(c caseData) caseData {
 	src := sourceOf(&c)
-	if len(src) <= 1<<20 {
+	// (JSON cannot carry invalid UTF-8: such inputs stay with their generator spec)
+	if len(src) <= 1<<20 && (c.Spec == nil || utf8.ValidString(src)) {
 		c.Src = &src
 	}
 	c.FullStack = true
@@ -236,6 +238,7 @@ func (k *checker) handle(c mon.Case, res mon.Result) {
 	}
 	d.Event("reached:"+reached, 1)
 	d.Event("family:"+cd.Family, 1)
+	k.perFam[cd.Family+":"+reached]++
 	kind := o.Outcome
 	if i := strings.Index(kind, ":"); i >= 0 && strings.HasPrefix(kind, "value:") {
 		kind = "value"
@@ -463,6 +466,33 @@ func drive(d *mon.Driver, replay string) int {
 		p.add("soup", caseData{Spec: &spec{Fam: "soup", Seed: seed, A: i}, Filename: i%5 == 0, Direct: i%7 == 0})
 		flush(srcOpts, false)
 	}
+	// every expression kind in every position that only accepts a restricted form
+	for a, pos := range restrictPositions {
+		for b := range exprKinds {
+			if !pos.two() {
+				p.add("restrict", caseData{Spec: &spec{Fam: "restrict", A: a, B: b, C: b}, Conc: true, DeadlineMS: 150, Filename: (a+b)%4 == 0, Direct: (a+b)%5 == 0})
+				continue
+			}
+			if d.Thorough() {
+				for c := range exprKinds {
+					p.add("restrict", caseData{Spec: &spec{Fam: "restrict", A: a, B: b, C: c}, Conc: true, DeadlineMS: 150, Direct: (a+b+c)%5 == 0})
+				}
+				continue
+			}
+			for _, c := range []int{b, r.Intn(len(exprKinds)), r.Intn(len(exprKinds))} {
+				p.add("restrict", caseData{Spec: &spec{Fam: "restrict", A: a, B: b, C: c}, Conc: true, DeadlineMS: 150, Direct: (a+b+c)%5 == 0})
+			}
+		}
+		flush(srcOpts, false)
+	}
+	// every position inside a literal x a representative of every character class
+	for a := range lexContexts {
+		for b := range lexChars {
+			p.add("lex", caseData{Spec: &spec{Fam: "lex", A: a, B: b}, DeadlineMS: 150, Filename: (a+b)%4 == 0, Direct: (a+b)%5 == 0})
+		}
+		flush(srcOpts, false)
+	}
+	d.Extra("restricted_positions", map[string]any{"positions": len(restrictPositions), "expression_kinds": len(exprKinds), "literal_contexts": len(lexContexts), "characters": len(lexChars)})
 	nBytes := d.N(3000, 300000)
 	for i := 0; i < nBytes; i++ {
 		p.add("bytes", caseData{Spec: &spec{Fam: "bytes", Seed: seed, A: i}, Filename: i%5 == 0, Direct: i%7 == 0})
@@ -634,6 +664,18 @@ func drive(d *mon.Driver, replay string) int {
 
 	k.confirmAndReport(false)
 
+	// self-checks of the generated families: shapes that are meant to be valid must not all be rejected
+	// (a clash in a prelude would silently turn a family into parse/compile errors)
+	if onlyFamilies == nil || onlyFamilies["restrict"] {
+		if n := k.perFam["restrict:result"]; n < 2000 {
+			d.Fatal(fmt.Sprintf("family restrict: only %d inputs evaluated to a value (prelude or templates broken?)", n))
+		}
+	}
+	if onlyFamilies == nil || onlyFamilies["runaway"] {
+		if n := k.perFam["runaway:parse"] + k.perFam["runaway:compile"]; n > 0 {
+			d.Fatal(fmt.Sprintf("family runaway: %d shapes were rejected by the parser or compiler", n))
+		}
+	}
 	d.Extra("script_cases", nScript)
 	d.Extra("slowest_cases", k.slow)
 	if onlyFamilies != nil {
